@@ -555,6 +555,15 @@ func (ex *Exec) cutLoop(fr *Frame, li *loopInfo, pc *Term, st *State, nloops int
 			a := Bound("a", srt.Idx)
 			ex.assume(pc, Forall([]*Term{a}, Implies(ULt(a, fr.entryNext), Eq(Select(nw, a), Select(cur, a))), []*Term{Select(nw, a)}))
 		}
+		if okLin, addrs := ex.localLinearAppends(fr, li, n); strings.HasPrefix(n, "E|") && okLin {
+			// the arrays of these slices were all allocated by this function (they start as nil and only
+			// ever receive the results of appends to themselves)
+			for _, ad := range addrs {
+				if sl, ok := linearSliceValue(st, ad); ok {
+					ex.assume(pc, Or(Eq(sl.Arr, C64(0)), ULe(fr.entryNext, sl.Arr)))
+				}
+			}
+		}
 		if strings.HasPrefix(n, "E|") && ex.onlyLocalLinearAppends(fr, li, n) {
 			// the only writers are appends to local linear slices, whose arrays were all allocated by
 			// this function: arrays that existed when the function was entered are untouched
@@ -790,9 +799,45 @@ func (v *Verifier) loopSliceWrites(fn *ssa.Function, li *loopInfo, cells map[*ss
 // onlyLocalLinearAppends: in this loop, component n (an E component) is written only by linear
 // appends to local (non-parameter) slice variables
 func (ex *Exec) onlyLocalLinearAppends(fr *Frame, li *loopInfo, n string) bool {
-	if fr.entryNext == nil {
-		return false
+	ok, _ := ex.localLinearAppends(fr, li, n)
+	return ok
+}
+
+// linearSliceValue: current value of a local linear slice given the address it is loaded from
+// (a local variable, or a field path inside a local struct variable held in a cell)
+func linearSliceValue(st *State, addr ssa.Value) (VSlice, bool) {
+	var path []int
+	cur := addr
+	for {
+		switch a := cur.(type) {
+		case *ssa.FieldAddr:
+			path = append([]int{a.Field}, path...)
+			cur = a.X
+			continue
+		case *ssa.Alloc:
+			v, ok := st.cells[a]
+			if !ok {
+				return VSlice{}, false
+			}
+			for _, f := range path {
+				sv, isS := v.(VStruct)
+				if !isS || f >= len(sv.F) {
+					return VSlice{}, false
+				}
+				v = sv.F[f]
+			}
+			sl, isSl := v.(VSlice)
+			return sl, isSl
+		}
+		return VSlice{}, false
 	}
+}
+
+func (ex *Exec) localLinearAppends(fr *Frame, li *loopInfo, n string) (bool, []ssa.Value) {
+	if fr.entryNext == nil {
+		return false, nil
+	}
+	var addrs []ssa.Value
 	found := false
 	for b := range li.body {
 		for _, in := range b.Instrs {
@@ -806,11 +851,11 @@ func (ex *Exec) onlyLocalLinearAppends(fr *Frame, li *loopInfo, n string) bool {
 			}
 			call, ok := in.(*ssa.Call)
 			if !ok {
-				return false
+				return false, nil
 			}
 			bi, ok := call.Call.Value.(*ssa.Builtin)
 			if !ok || bi.Name() != "append" || !ex.linearAppend(fr, call) {
-				return false
+				return false, nil
 			}
 			ld, _ := call.Call.Args[0].(*ssa.UnOp)
 			al, isAlloc := ld.X.(*ssa.Alloc)
@@ -818,12 +863,12 @@ func (ex *Exec) onlyLocalLinearAppends(fr *Frame, li *loopInfo, n string) bool {
 				// a field of a local struct variable that is never assigned as a whole (starts as the zero value)
 				ra, ok := rootAlloc(ld.X)
 				if !ok || ra.Parent() != fr.fn {
-					return false
+					return false, nil
 				}
 				if refs := ra.Referrers(); refs != nil {
 					for _, r := range *refs {
 						if st, isStore := r.(*ssa.Store); isStore && st.Addr == ssa.Value(ra) {
-							return false
+							return false, nil
 						}
 					}
 				}
@@ -831,13 +876,14 @@ func (ex *Exec) onlyLocalLinearAppends(fr *Frame, li *loopInfo, n string) bool {
 			}
 			for i := range fr.fn.Params {
 				if isParamSpill(al, fr.fn, i) {
-					return false
+					return false, nil
 				}
 			}
 			found = true
+			addrs = append(addrs, ld.X)
 		}
 	}
-	return found
+	return found, addrs
 }
 
 // loopBufferTargets: the buffers (pointer terms) written by binary.Write calls inside the loop, when every
